@@ -19,7 +19,8 @@ RULE = ("cases = (comment style out of 11, line ending, entry point out of 11 "
         "hostile fragments: LF, CR, CRLF, the style's opening/closing "
         "delimiters (also nested inside themselves), ';', parentheses, G-code "
         "payloads, format-string fragments, non-ASCII; optionally the same text "
-        "was used before on the same builder under another style); non-trivial = the text contains a line break "
+        "was used before on the same builder under another style; optionally with "
+        "a move hook registered; full-width look-alikes of the delimiters); non-trivial = the text contains a line break "
         "or the closing delimiter of the active style; distinct by SHA-1")
 ASSUMPTIONS = [
     "a controller ends a block (and therefore a comment) at any raw CR or LF",
@@ -73,12 +74,18 @@ def executable(data, style):
     return out
 
 
-def run_entry(style, eol, entry, text, prev_style=None):
+def _passthrough_hook(origin, target, params, state):
+    return params
+
+
+def run_entry(style, eol, entry, text, prev_style=None, hook=False):
     import gscrib
     cfg_eol, _ = eol_of(eol)
     g = gscrib.GCodeBuilder(comment_symbols=prev_style or style, line_endings=cfg_eol)
     rec = recorder_class()()
     g.add_writer(rec)
+    if hook:
+        g.add_hook(_passthrough_hook)
     if prev_style is not None:
         # the same text was already used on this builder under another comment
         # style; then the style is changed (a formatter must not remember it)
@@ -120,12 +127,12 @@ def check(case):
     if prev == style:
         prev = None
     try:
-        base = run_entry(style, eol, entry, "x", prev)
+        base = run_entry(style, eol, entry, "x", prev, bool(case.get("hook")))
     except Exception as e:
         raise Violation(f"style {style!r}: {entry} with an innocuous comment "
                         f"raised {type(e).__name__}: {e}")
     try:
-        out = run_entry(style, eol, entry, text, prev)
+        out = run_entry(style, eol, entry, text, prev, bool(case.get("hook")))
     except ValueError:
         return "rejected"
     except Exception as e:
@@ -154,6 +161,8 @@ def classes_of(case):
         cl.append("has_opening_delimiter")
     if any(ord(c) > 127 for c in t):
         cl.append("non_ascii")
+    if case.get("hook"):
+        cl.append("move_hook_registered")
     if case.get("prev_style") and case["prev_style"] != case["style"]:
         cl.append("style_changed_on_same_builder")
     return cl
@@ -181,6 +190,10 @@ def strategy():
         if close:
             aimed += [close, close + close, close[0] + close + close[1:],
                       close + " G1 X5 " + style]
+            # compatibility (full-width) forms that a normalisation step would
+            # fold into the real delimiter
+            fw = "".join(chr(ord(c) + 0xFEE0) if 0x21 <= ord(c) <= 0x7E else c for c in close)
+            aimed += [fw, fw + " M112 ", "\uff1b", "\u2028", "\u0085"]
         frag = st.one_of(hostile, st.sampled_from(aimed), st.sampled_from(aimed),
                          st.text(max_size=6),
                          st.text(alphabet="GMXYZ0123456789 .-", max_size=8))
@@ -189,7 +202,8 @@ def strategy():
     return st.sampled_from(STYLES).flatmap(lambda sty: st.fixed_dictionaries({
         "style": st.just(sty), "eol": st.sampled_from(EOLS),
         "entry": st.sampled_from(ENTRIES), "text": text_for(sty),
-        "prev_style": st.one_of(st.none(), st.none(), st.sampled_from(STYLES))}))
+        "prev_style": st.one_of(st.none(), st.none(), st.sampled_from(STYLES)),
+        "hook": st.sampled_from([False, False, True])}))
 
 
 def run_shard(ctx):
